@@ -6,6 +6,7 @@ import (
 	"fmt"
 	"go/ast"
 	"go/constant"
+	"go/token"
 	"go/types"
 	"regexp"
 	"sort"
@@ -123,6 +124,8 @@ func runC02(w *World, r *Report) {
 			r.Add(o)
 		}
 	}
+	r.Rule("appendcopy", "a struct parameter appended by value is not modified afterwards in the builder (the list holds the copy)", 1)
+	appendedCopyRule(w, r)
 	r.Rule("code", "constructors leave the specified type / subtype / experimenter codes", 35)
 	r.Rule("declen", "stored length fields equal the size of what the element contains, for every constructor and builder", 13)
 	r.Rule("oxmlen", "constructors and editors of match fields leave oxm_length equal to the payload bytes", 40)
@@ -1432,4 +1435,74 @@ func (w *World) calledFromModule(fi *FuncInfo) bool {
 		}
 	}
 	return w.callerCache[fi.Obj]
+}
+
+// appendedCopyRule: `m.list = append(m.list, p)` with p a struct PARAMETER passed by value stores a copy of
+// p. A later store into p's fields in the same builder changes only the parameter: the stored element
+// keeps the old fields, and a length the builder then derives from p (m.Length += p.Len()) describes an
+// element that is not the one in the list.
+func appendedCopyRule(w *World, r *Report) {
+	n := 0
+	for _, key := range w.sortedFuncKeys() {
+		fi := w.Funcs[key]
+		if fi.Decl.Body == nil || fi.Recv == nil || !(fi.Pkg.Types.Name() == "openflow13" || fi.Pkg.Types.Name() == "common") {
+			continue
+		}
+		info := fi.Pkg.TypesInfo
+		params := map[types.Object]bool{}
+		for _, p := range paramObjs(fi) {
+			if p == nil {
+				continue
+			}
+			if _, isStruct := p.Type().Underlying().(*types.Struct); isStruct {
+				params[p] = true
+			}
+		}
+		if len(params) == 0 {
+			continue
+		}
+		appendedAt := map[types.Object]token.Pos{}
+		ast.Inspect(fi.Decl.Body, func(nd ast.Node) bool {
+			c, ok := nd.(*ast.CallExpr)
+			if !ok || len(c.Args) < 2 {
+				return true
+			}
+			if id, ok := unparen(c.Fun).(*ast.Ident); !ok || id.Name != "append" {
+				return true
+			}
+			for _, a := range c.Args[1:] {
+				if id, ok := unparen(a).(*ast.Ident); ok && params[info.Uses[id]] {
+					if _, seen := appendedAt[info.Uses[id]]; !seen {
+						appendedAt[info.Uses[id]] = c.End()
+					}
+				}
+			}
+			return true
+		})
+		for p, at := range appendedAt {
+			n++
+			bad := token.NoPos
+			what := ""
+			ast.Inspect(fi.Decl.Body, func(nd ast.Node) bool {
+				as, ok := nd.(*ast.AssignStmt)
+				if !ok || as.Pos() < at || bad.IsValid() {
+					return true
+				}
+				for _, l := range as.Lhs {
+					if se, ok := unparen(l).(*ast.SelectorExpr); ok {
+						if id, ok := unparen(se.X).(*ast.Ident); ok && info.Uses[id] == p {
+							bad, what = as.Pos(), types.ExprString(l)
+						}
+					}
+				}
+				return true
+			})
+			if bad.IsValid() {
+				r.Fail(VViolation, "appendcopy", fi.Key, p.Name(), w.Pos(bad), fmt.Sprintf("%s is assigned after the parameter %s was appended by value: the list holds the copy made at the append, which does not see this store, so what the builder computes from %s afterwards (a length) describes an element that is not the one in the list", what, p.Name(), p.Name()))
+			} else {
+				r.OK("appendcopy", fi.Key, p.Name(), w.Pos(at), "the by-value parameter is not modified after it was appended", true)
+			}
+		}
+	}
+	r.OK("appendcopy", "inventory", "", "-", fmt.Sprintf("%d appends of a by-value struct parameter in builder methods", n), true)
 }
